@@ -131,6 +131,10 @@ def two_readings(dump):
     return out
 
 
+def c09_strip(canon):
+    return strip_levels(canon)
+
+
 def strip_levels(canon):
     n, acc, trans = canon
     def f(sym):
@@ -234,6 +238,40 @@ def check_a(P, stmts, acc, origin):
     found = two_readings(ans['dfa_min'])
     acc.count('a_automata_searched')
     acc.seen(('a', text))
+    if any(sig.endswith('two-levels') for sig, _ in found):
+        # the reference labelling says which items the grammar itself expects at two levels of one point
+        try:
+            ref = refsem.reference_dfa(stmts, 'bash')
+            genuine = set()
+
+            def scan(d):
+                for row in d['delta'].values():
+                    seen = {}
+                    for sym in row:
+                        if sym[0] == 'L':
+                            seen.setdefault(('L', sym[1]), set()).add(sym[3])
+                        elif sym[0] in 'CA':
+                            seen.setdefault(('C', sym[1]), set()).add(sym[2])
+                        elif sym[0] == 'S':
+                            seen.setdefault(('S', c09_strip(sym[1])), set()).add(sym[2])
+                            scan(A.dfa_from_canon(sym[1]))
+                    for k, lv in seen.items():
+                        if len(lv) > 1:
+                            genuine.add(k[:2] if k[0] != 'S' else ('S',))
+            scan(ref)
+        except Exception:
+            genuine = None
+        if genuine is not None:
+            fixed = []
+            for sig, detail in found:
+                if sig == 'same-literal-two-levels' and ('L', detail['items'][0]['t']) not in genuine:
+                    sig = 'item-at-two-levels-although-the-grammar-has-it-at-one'
+                elif sig == 'same-command-two-levels' and ('C', detail['items'][0]['c']) not in genuine:
+                    sig = 'item-at-two-levels-although-the-grammar-has-it-at-one'
+                elif sig in ('same-within-word-expression-two-levels', 'same-nested-automaton-two-levels') and ('S',) not in genuine:
+                    sig = 'item-at-two-levels-although-the-grammar-has-it-at-one'
+                fixed.append((sig, detail))
+            found = fixed
     for sig, detail in found:
         acc.violation({'sig': sig, 'part': 'a', 'grammar': text, 'shell': 'bash', 'what': 'two readings of one word',
                        'witness': detail, 'origin': origin, 'stmts': stmts})
